@@ -113,7 +113,7 @@ def run_case(case, res):
                 for code in (0, n):
                     ends.append(z3.fpMul(z3.RNE(), sz_, z3.fpSignedToFP(z3.RNE(), z3.BitVecVal(code, 8) - zz_, sz_.sort())))
             R_end = z3.And(z3.Not(R_zp), z3.Not(R_czp), z3.Not(R_range), z3.Not(R_const), z3.Or(*[z3.Not(fin(e)) for e in ends]))
-            regs = {"zeropoint-overflow": R_zp, "constant-group": R_const, "code-minus-zeropoint-overflow": z3.And(z3.Not(R_zp), R_czp), "range-overflow": R_range, "grid-endpoint-overflow": R_end}
+            regs = {"zeropoint-overflow": R_zp, "zero-scale-underflow": R_const, "code-minus-zeropoint-overflow": z3.And(z3.Not(R_zp), R_czp), "range-overflow": R_range, "grid-endpoint-overflow": R_end}
         bad_out = z3.Or(*[z3.Not(fin(b.tr(d))) for d in D.reshape(-1)])
         # int8 zero rows are harmless (0/0 -> NaN -> code 0 -> 0*0): only float8 zero rows are a finding region
         excl = [z3.Not(R) for k, R in regs.items() if k != "zero-scale-int8"]
